@@ -3,6 +3,7 @@
 here=$(cd "$(dirname "$0")/.." && pwd)
 for d in "$here"/seeded/*/; do
   n=$(basename "$d"); pid=$(python3 -c "import json;print(json.load(open('$d/meta.json'))['property'])")
+  if grep -q neutralised_by_fix "$d/meta.json"; then echo "NEUTRALISED $n ($pid): behaviour-preserving since a later fix commit"; continue; fi
   out=$("$here/tools/mutant.sh" "$d/patch.diff" $pid 2>&1)
   if echo "$out" | grep -q "VIOLATION property=$pid"; then echo "CAUGHT $n ($pid)"; else echo "MISSED $n ($pid): $(echo "$out" | tail -1)"; fi
 done
